@@ -154,6 +154,15 @@ def judge(text, cfg):
     return None
 
 
+def _catch_var_redeclared(text):
+    """a var (or function) declaration inside a catch block re-declares the catch parameter (identifier characters incl. $)"""
+    for m in re.finditer(r'catch\s*\(\s*([\w$]+)\s*\)\s*\{', text):
+        name = re.escape(m.group(1))
+        if re.search(r'(?<![\w$])(?:var|function)\s+' + name + r'(?![\w$])', text[m.end():]):
+            return True
+    return False
+
+
 def _funcexpr_name_clash(text):
     """does the program use the name of a named function expression also as a non-local (free or outer) name outside it?"""
     from calmjs.parse.parsers.es5 import parse
@@ -248,7 +257,7 @@ def main():
     for n, bad in res:
         for text, ci, msg in bad:
             key = 'C07: ' + re.sub(r"%r|'(?:[^'\\]|\\.)*'|\"(?:[^\"\\]|\\.)*\"|\[\[.*\]\]|\d+", '..', msg)[:90]
-            if 'binding structure changed' in msg and re.search(r'catch\s*\((\w+)\)\s*\{[^}]*\bvar\s+\1\b', text):
+            if 'binding structure changed' in msg and _catch_var_redeclared(text):
                 key = K_CATCH_VAR
             elif ('free name' in msg or 'binding structure changed' in msg) and _funcexpr_name_clash(text):
                 key = K_FUNCEXPR_NAME
